@@ -188,6 +188,11 @@ def quantity_of(t):
     if kind == "simple":
         s = Scalar(2.0, t["unit"], t["cat"])
         return s.GetQuantity(), s
+    if kind == "list":
+        # the list / tuple form: what GetComposingUnits() / GetComposingCategories() of a quantity return
+        cont = tuple if t.get("as_tuple") else list
+        q = ObtainQuantity(cont((u, e) for u, e in t["pairs"]), cont(t["lcats"]))
+        return q, Scalar.CreateWithQuantity(q, 1.5)
     raise ValueError(kind)
 
 
@@ -329,6 +334,18 @@ def _dict_entries(ctx, rng):
     return out
 
 
+def _list_case(ctx, t):
+    """A request in the list form; the model gets the REQUEST (pairs + categories), not the entries of the result."""
+    ent = [[c, u, e] for c, (u, e) in zip(t["lcats"], t["pairs"])]
+    cats, names = lookups(ctx.db, ent)
+    return dict(op="obtain_list",
+                pairs=[[str(sym(u)), e] for u, e in t["pairs"]],
+                lcats=[str(sym(c)) for c in t["lcats"]],
+                cats=[[str(sym(c)), str(sym(qt))] for c, qt in cats],
+                names=[[str(sym(qt)), str(sym(u)), str(sym(n))] for qt, u, n in names],
+                _t=dict(t, kind="list", entries=ent))
+
+
 def _strings_case(ctx, t):
     """Builds the quantity on the real code to read its internal entry list (the model's input)."""
     with Pushed(ctx.db):
@@ -384,6 +401,33 @@ def _gen(ctx, salt, scale):
             ctx.notes["dicts_refused_by_the_real_code"] = ctx.notes.get("dicts_refused_by_the_real_code", 0) + 1
             continue
         yield c
+    # the list form of ObtainQuantity: (a) a quantity re-obtained from its own composing units and categories,
+    # (b) single factors with every exponent (only exponent 1 is the simple case), (c) short hand-made requests
+    n_list = (500 if not thorough else 6000) * scale
+    for i in range(n_list):
+        w = rng.random()
+        if w < 0.45:
+            tree, rd = _profile(ctx, rng, 3)
+            try:
+                with Pushed(ctx.db):
+                    q, _s = quantity_of(dict(kind="expr", recipe=tree))
+                cu, cc = q.GetComposingUnits(), q.GetComposingCategories()
+            except Exception:
+                continue
+            if isinstance(cu, str) or isinstance(cc, str):
+                cu, cc = [(cu, 1)], [cc]
+            t = dict(pairs=[[u, e] for u, e in cu], lcats=list(cc), recipe=tree)
+        elif w < 0.8:
+            leaf = _leaf(ctx, rng)
+            t = dict(pairs=[[leaf[1], rng.choice([-4, -3, -2, -1, 1, 1, 2, 3, 4])]], lcats=[leaf[2]])
+        else:
+            n = rng.choice([2, 2, 3])
+            leaves = [_leaf(ctx, rng) for _ in range(n)]
+            if len({l[2] for l in leaves}) < n:
+                continue
+            t = dict(pairs=[[l[1], rng.choice([-3, -2, -1, 1, 1, 2, 3])] for l in leaves], lcats=[l[2] for l in leaves])
+        t["as_tuple"] = rng.random() < 0.5
+        yield _list_case(ctx, t)
     # simple quantities of table units
     units = list(ctx.all_units)
     if not thorough:
@@ -419,6 +463,36 @@ def cases(ctx):
     yield from _gen(ctx, "corr", 1)
 
 
+def table_candidates(ctx):
+    """When the table theorem `posc_unit_names_distinguish_types` stops checking: every pair of atomic units of
+    different quantity types that share a registered name, as product, quotient and reciprocal powers."""
+    by_name = {}
+    for u, qt in ctx.all_units:
+        try:
+            by_name.setdefault(ctx.db.GetUnitName(qt, u), []).append((u, qt))
+        except Exception:
+            pass
+    for name in sorted(by_name):
+        rows = by_name[name]
+        for i, (u1, q1) in enumerate(rows):
+            for u2, q2 in rows[i + 1:]:
+                if q1 == q2:
+                    continue
+                l1 = l2 = None
+                for c_, u_ in ctx.pool.get(q1, []):
+                    if u_ == u1:
+                        l1 = ["leaf", u1, c_, 2.0]
+                for c_, u_ in ctx.pool.get(q2, []):
+                    if u_ == u2:
+                        l2 = ["leaf", u2, c_, 3.0]
+                if l1 is None or l2 is None:
+                    continue
+                for tree in (["mul", l1, l2], ["div", l1, l2], ["div", ["pow", l1, 2], ["pow", l2, 3]]):
+                    c = _strings_case(ctx, dict(kind="expr", recipe=tree))
+                    if c is not None:
+                        yield c
+
+
 def search(ctx):
     yield from _gen(ctx, "search", 2)
 
@@ -433,7 +507,7 @@ def case_key(c):
 
 def show(c):
     t = c["_t"]
-    return {k: v for k, v in t.items() if k in ("kind", "recipe", "entries", "unit", "cat", "items", "build_error", "detail")} \
+    return {k: v for k, v in t.items() if k in ("kind", "recipe", "entries", "unit", "cat", "items", "build_error", "detail", "pairs", "lcats", "as_tuple")} \
         if t["kind"] != "parse" else dict(kind="parse", syms=t["syms"][:8])
 
 
@@ -500,7 +574,11 @@ def agree(c, io, mo, ctx):
         return None
     if t["kind"] == "makestr":
         return None if r == _u(m) else "_MakeStr gives %r, the model %r" % (r, _u(m))
-    if r["entries"] != t["entries"]:
+    if t["kind"] == "list":
+        me = [[_u(c_), _u(u_), e_] for c_, u_, e_ in m["entries"]]
+        if r["entries"] != me:
+            return "list form: the real quantity has entries %s, the model's %s" % (r["entries"], me)
+    elif r["entries"] != t["entries"]:
         return "the quantity was rebuilt with a different entry list (non-deterministic build?)"
     for k in ("unit", "category", "qtype"):
         if r[k] != _u(m[k]):
@@ -530,7 +608,7 @@ def agree(c, io, mo, ctx):
     pm = None if m["parsed"] is None else [[_u(x), e] for x, e in m["parsed"]]
     if pm != parse_unit(r["unit"]):
         return "parse of %r: python %s, model %s" % (r["unit"], parse_unit(r["unit"]), pm)
-    if m["all_atomic"] != all(is_atomic(u) for _c, u, _e in t["entries"]):
+    if m["all_atomic"] != all(is_atomic(u) for _c, u, _e in r["entries"]):
         return "atomicity verdicts differ"
     if m["all_atomic"] and pm != written(jm):
         return "model: parse . render is not the written joined factors (contradicts theorem parse_render)"
@@ -591,6 +669,15 @@ def oracle(c, ctx):
             ent = entries_of(q)
             unit, cat, qt = q.GetUnit(), q.GetCategory(), q.GetQuantityType()
             inp = dict(input=show(c), entries=ent)
+            if t["kind"] == "list" and len(set(t["lcats"])) == len(t["lcats"]) == len(t["pairs"]):
+                want_ent = [[c_, u_, e_] for c_, (u_, e_) in zip(t["lcats"], t["pairs"])]
+                if ent != want_ent:
+                    return dict(inp, clause="a quantity obtained from a list of (unit, exponent) factors holds exactly "
+                                            "those composing units and exponents (so that its unit string parses "
+                                            "back to them)", requested=want_ent, unit_string=unit)
+                if all(is_atomic(u_) for u_, _e in t["pairs"]) and parse_unit(unit) != written(merged(t["pairs"])):
+                    return dict(inp, clause="parsing the unit string recovers the joined requested factors",
+                                unit_string=unit, parsed=parse_unit(unit), requested=written(merged(t["pairs"])))
             if not q.IsDerived():
                 # a simple quantity's strings are exactly its registered category, quantity type and unit
                 (c0, u0, e0), = ent
